@@ -192,6 +192,7 @@ def check(ctx, build=None):
         probes = dict(("panic-site:" + k, v) for k, v in c07.PROBES.items())
         probes["blank-and-init-declarations"] = ("func init() {\n}\n\nfunc init() {\n\tKeep()\n}\n\nfunc _() {\n}\n\nfunc _() uint64 {\n\treturn 1\n}\n\nvar _ uint64 = 3\n\nvar _ = uint64(4)\n\n"
                                                  "func Keep() uint64 {\n\treturn 2\n}\n")
+        probes["call-through-anonymous-struct-field"] = ("func one() uint64 {\n\treturn 1\n}\n\nfunc viaAnonymousStruct() uint64 {\n\treturn struct{ g func() uint64 }{g: one}.g()\n}\n\nfunc two() uint64 {\n\treturn 2\n}\n")
         probes["method-value-before-method"] = ("type MV struct {\n\tv uint64\n}\n\nfunc UseMV(s MV) uint64 {\n\tg := s.Late\n\treturn g()\n}\n\n"
                                                 "func CallsDirect(s MV) uint64 {\n\treturn s.Late() + 1\n}\n\nfunc (s MV) Late() uint64 {\n\treturn s.v\n}\n")
         probes["interface-argument-in-recursion"] = ("type Shape interface {\n\tArea() uint64\n}\n\ntype Sq struct {\n\tside uint64\n}\n\nfunc (s Sq) Area() uint64 {\n\treturn s.side\n}\n\n"
